@@ -244,6 +244,12 @@ func VerifC15_NewIds() {
 	verifAssert(e4 == nil && e.k.GetDenomSupply(e.ctx, mine.Id) == 2 && len(e.k.GetMTs(e.ctx, mine.Id)) == 2, "minting more of an existing token creates no new token")
 	verifAssert(e.k.GetMTSupply(e.ctx, mine.Id, ofAlice) == a1+a3 && e.k.GetBalance(e.ctx, mine.Id, ofAlice, bob) == a3 && e.k.GetBalance(e.ctx, mine.Id, ofAlice, alice) == a1, "a further mint adds exactly its amount to the supply and to the recipient")
 	verifAssert(e.k.GetMTSupply(e.ctx, mine.Id, ofBob) == a2, "other tokens of the class are untouched")
+	// every way of reading a token reports the same, current, supply (the token list feeds the genesis export
+	// and the supply invariant)
+	for _, m := range e.k.GetMTs(e.ctx, mine.Id) {
+		one, gerr := e.k.GetMT(e.ctx, mine.Id, m.GetID())
+		verifAssert(gerr == nil && m.GetSupply() == e.k.GetMTSupply(e.ctx, mine.Id, m.GetID()) && one.GetSupply() == m.GetSupply(), "the supply recorded for a token is the sum of its holders' balances, however it is read")
+	}
 	// the other class creates tokens of its own: generated ids are never reused - not within a class, not across classes
 	var theirs types.Denom
 	for _, d := range ds {
